@@ -7,6 +7,7 @@ package vh
 import (
 	"encoding/json"
 	"fmt"
+	"golang.org/x/net/html"
 	"io"
 	"math"
 	"math/rand"
@@ -103,6 +104,31 @@ func rowsFrom(data [][]float64, labels []string) []rowT {
 
 // parseHTML extracts labels and data rows from the page written by the plot command.
 func parseHTML(page string) ([][]float64, []string, error) {
+	// read the page as a browser does: only what the HTML tokenizer takes for the content of a script element counts
+	// (a "</script" inside a string literal ends the element)
+	z := html.NewTokenizer(strings.NewReader(page))
+	script, inScript := "", false
+	for {
+		tt := z.Next()
+		if tt == html.ErrorToken {
+			break
+		}
+		switch tt {
+		case html.StartTagToken:
+			name, _ := z.TagName()
+			inScript = string(name) == "script"
+		case html.EndTagToken:
+			inScript = false
+		case html.TextToken:
+			if txt := string(z.Text()); inScript && strings.Contains(txt, "var opts = ") {
+				script = txt
+			}
+		}
+	}
+	if script == "" {
+		return nil, nil, fmt.Errorf("no script element with the plot's options and data")
+	}
+	page = script
 	oi := strings.Index(page, "var opts = ")
 	di := strings.Index(page, "var data = ")
 	if oi < 0 || di < 0 {
@@ -180,7 +206,7 @@ func TestDrv_C17(t *testing.T) {
 		na := 1 + r.Intn(3)
 		names := []string{"", "a", "50qps", "attack: B"}
 		if p%3 == 1 { // names of which one is the beginning of another
-			names = []string{"load", "loadBalanced", "GET", "GETALL", "", "Canary", "load;x", "load@2"}
+			names = []string{"load", "loadBalanced", "GET", "GETALL", "", "Canary", "load;x", "load@2", "a</script><b>x", "<!-- c & \"d\""}
 		}
 		if p%8 == 5 { // many attacks in one plot
 			na = 10 + r.Intn(10)
